@@ -21,6 +21,7 @@ def fmtAtom : Atom → String
   | .none => "N"
   | .tt => "T"
   | .ff => "F"
+  | .msym a i => s!"s{if a then "a" else "c"}{i}"
 
 def fmtCompl : Compl → String
   | .leaf cmd args => "{" ++ " ".intercalate (cmd :: args.map fmtAtom) ++ "}"
